@@ -1,5 +1,5 @@
 """C02 — Acc() truthfully reports the direction of the rounding error."""
-from . import C01, common
+from . import C01, C14, common
 
 from vlib import fin, zero, inf, B, ndigits
 import pyspec
@@ -21,7 +21,14 @@ def gen(rng, tier):
     rng.random()
     for c in C01.gen(rng, tier):
         yield c
+    # the setters named by the property (judged by the conversion oracle of C14, which checks Acc() too)
+    for c in C14.gen(rng, tier):
+        if c["family"] in ("setters", "setrat-long"):
+            c = dict(c); c["family"] = "c14-" + c["family"]
+            yield c
 
 
 def judge(cases, g, m):
-    return C01.judge(cases, g, m)
+    a = [c for c in cases if not c.get("family", "").startswith("c14-")]
+    b = [c for c in cases if c.get("family", "").startswith("c14-")]
+    return C01.judge(a, g, m) + C14.judge(b, g, m)
